@@ -20,7 +20,11 @@ Reach: per-file SEDs stored in mJy, Jy or erg/cm2/s (`SED.read(unit_flux=mJy)` c
 (`val_factor` / `unc_factor` != 1), values and uncertainties possibly in different units in either format; aperture-less packages (no aperture list: the per-file format carries the
 1e-30 cm placeholder of `SED.write`, the cube format no APERTURES table); fits from the per-file package with
 `use_memmap=True` as well; a cube package whose parameter table is in another row order is a compared refusal
-(the code raises ValueError, the model answers `namesMismatch`).
+(the code raises ValueError, the model answers `namesMismatch`).  Filter central wavelengths are handed over in
+micron, Angstrom, nm, mm or cm; FILTWAV of every file and `fitter.models.wavelengths` must be that wavelength in
+micron.  Staged history in one process: convolve -> fit -> write_parameters / write_parameter_ranges /
+extract_parameters -> convolve again (overwrite, one more filter): every file's rows still follow the parameter
+table on disk / the cube.
 
 Model side: driver `ordermatch` (= `sortToMatch`) on (SED names in directory-listing order, table
 names) predicts which listing position lands in which row; `convnames 1|2` (= `convolveV1/V2` on tagged
@@ -53,6 +57,9 @@ REQUIRED_BRANCHES = ['perfile', 'cube', 'conv_memmap_on', 'conv_memmap_off', 'fi
                      'no_apertures', 'unit_sed_mJy', 'unit_sed_Jy', 'unit_sed_erg', 'unit_cube_mJy', 'unit_cube_Jy',
                      'perfile_fit_memmap_on', 'cube_table_permuted', 'cube_table_same_order',
                      'cube_val_unc_units_differ', 'sed_flux_err_units_differ',
+                     'staged_history', 'staged_history_unsorted_table', 'stage_write_parameters',
+                     'stage_write_parameter_ranges', 'stage_extract_parameters',
+                     'cw_unit_um', 'cw_unit_AA', 'cw_unit_nm', 'cw_unit_mm', 'cw_unit_cm',
                      'models_1', 'models_8', 'sed_subdir']
 ASSUMPTIONS = ['astropy FITS I/O stores float64 columns and string columns faithfully (observed, not proved)',
                'IEEE rounding is not modelled: flat-spectrum and cross-format comparisons use 1e-11 / 1e-12 relative',
@@ -128,7 +135,8 @@ def gen_filters(rng, nf, wlo, whi):
         if rng.random() < 0.5:
             ws, resp = ws[::-1], resp[::-1]
         cw = float('%.4g' % math.sqrt(a * b))
-        fs.append(dict(name='F%d' % j, cw=cw, wav=ws, resp=resp))
+        fs.append(dict(name='F%d' % j, cw=cw, wav=ws, resp=resp,
+                       cw_unit=rng.choice(['um', 'um', 'AA', 'nm', 'mm', 'cm'])))
     return fs
 
 
@@ -205,15 +213,16 @@ def gen_case(rng, n=None, table_perm=None, directed=None):
                 sed_store=directed.get('sed_store', rng.choice(['nu_inc', 'nu_dec'])),
                 cube_store=directed.get('cube_store', rng.choice(['nu_inc', 'nu_dec'])),
                 g=g, h=h, c=c, e=e, tilt=tilt, etilt=etilt, general=general, filters=filters, src=src, av=[0., 40.],
+                stage=directed.get('stage', rng.choice([None, None, 'write_parameters', 'write_parameter_ranges', 'extract_parameters'])),
                 flat=flat, unit_sed=unit_sed, unit_cube=unit_cube, unit_sed_err=unit_sed_err, unit_cube_unc=unit_cube_unc,
                 cube_table=cube_table)
 
 
 DIRECTED = [
-    dict(n=1, nap=1, nf=2, flat=True, sed_store='nu_inc', cube_store='nu_dec', pad=True, no_aps=True, unit_sed='Jy', unit_cube='mJy', unit_sed_err='mJy', unit_cube_unc='Jy', cube_perm=True),
-    dict(n=8, nap=5, nf=3, flat=False, general=True, sed_store='nu_dec', cube_store='nu_inc', pad=True, name30=True, subdir=True),
-    dict(n=3, nap=1, nf=3, flat=True, sed_store='nu_dec', cube_store='nu_dec', pad=False, name30=True, no_aps=True, unit_sed='erg/cm2/s', unit_cube='Jy', unit_sed_err='Jy', unit_cube_unc='mJy', cube_perm=True),
-    dict(n=4, nap=2, nf=2, flat=False, general=False, sed_store='nu_inc', cube_store='nu_inc', pad=True, subdir=True, unit_sed='erg/cm2/s', unit_cube='mJy', unit_sed_err='erg/cm2/s', unit_cube_unc='mJy', cube_perm=True),
+    dict(n=1, nap=1, nf=2, flat=True, sed_store='nu_inc', cube_store='nu_dec', pad=True, stage='write_parameters', no_aps=True, unit_sed='Jy', unit_cube='mJy', unit_sed_err='mJy', unit_cube_unc='Jy', cube_perm=True),
+    dict(n=8, nap=5, nf=3, flat=False, general=True, stage='write_parameters', sed_store='nu_dec', cube_store='nu_inc', pad=True, name30=True, subdir=True),
+    dict(n=3, nap=1, nf=3, flat=True, sed_store='nu_dec', cube_store='nu_dec', pad=False, name30=True, stage='write_parameter_ranges', no_aps=True, unit_sed='erg/cm2/s', unit_cube='Jy', unit_sed_err='Jy', unit_cube_unc='mJy', cube_perm=True),
+    dict(n=4, nap=2, nf=2, flat=False, general=False, sed_store='nu_inc', cube_store='nu_inc', pad=True, stage='extract_parameters', subdir=True, unit_sed='erg/cm2/s', unit_cube='mJy', unit_sed_err='erg/cm2/s', unit_cube_unc='mJy', cube_perm=True),
     dict(n=5, nap=3, nf=2, flat=True, sed_store='nu_dec', cube_store='nu_inc', pad=True, subdir=True),
     dict(n=2, nap=4, nf=3, flat=False, general=True, sed_store='nu_inc', cube_store='nu_dec', pad=False),
     dict(n=5, nap=1, nf=2, flat=False, general=True, sed_store='nu_dec', cube_store='nu_dec', pad=True, no_aps=False, unit_sed='Jy', unit_cube='Jy', unit_sed_err='erg/cm2/s', unit_cube_unc='mJy', cube_perm=True),
@@ -358,7 +367,16 @@ def build_cube(case, d2):
 
 
 def make_filters(case):
-    return [pk.make_filter(f['name'], f['cw'], f['wav'], f['resp']) for f in case['filters']]
+    """Filter objects; the central wavelength is handed over in the unit the case names (any length unit is accepted)"""
+    from astropy import units as u
+    out = []
+    for f in case['filters']:
+        flt = pk.make_filter(f['name'], f['cw'], f['wav'], f['resp'])
+        unit = u.Unit(f.get('cw_unit', 'um'))
+        if unit != u.micron:
+            flt.central_wavelength = (f['cw'] * u.micron).to(unit)
+        out.append(flt)
+    return out
 
 
 def listing_names(case, d1):
@@ -472,8 +490,9 @@ def check_file(case, tab, via, expect_names, fname, filt, what, scale=1.):
             len(tab['aps']) != len(want_aps) or not all(rel(x, y) < 1e-14 for x, y in zip(tab['aps'], want_aps)))):
         fails.append('%s %s: apertures %r, SED apertures %r' % (what, fname, None if tab['aps'] is None else
                                                                 [float(v) for v in tab['aps']], want_aps))
-    if rel(tab['wav'], filt['cw']) > 1e-14:
-        fails.append('%s %s: FILTWAV %r, filter central wavelength %r' % (what, fname, tab['wav'], filt['cw']))
+    if rel(tab['wav'], filt['cw']) > 1e-12:
+        fails.append('%s %s: FILTWAV %r micron, filter central wavelength %r micron (given in %s)'
+                     % (what, fname, tab['wav'], filt['cw'], filt.get('cw_unit', 'um')))
     expF, expE = expected_rows(case, filt)
     expF, expE = expF * scale, expE * scale
     if case['flat']:
@@ -508,7 +527,46 @@ def fit_variant(case, d, fnames, use_memmap, src_flux):
     with common.quiet():
         info = fitter.fit(s)
     a = pk.fit_arrays(info)
+    fitter.last_info = info
     return {nme: (a['av'][i], a['sc'][i], a['chi2'][i]) for i, nme in enumerate(a['name'])}, fitter
+
+
+def staged_history(case, d, d1, d2, filters, fitters, br):
+    """convolve (done) -> a post-processing call on a fit made from the package -> convolve again, with one more
+    filter and overwrite=True: the rows of EVERY convolved file must (still) follow the parameter table on disk
+    (per-file) / the cube (cube format), each row holding its own SED's numbers"""
+    from sedfitter import write_parameters, write_parameter_ranges, extract_parameters
+    from sedfitter.convolve import convolve_model_dir
+    fails = []
+    extra = dict(case['filters'][0], name='FB')
+    filters2 = list(filters) + [make_filters(dict(case, filters=[extra]))[0]]
+    specs = list(case['filters']) + [extra]
+    table_stripped = [t.strip() for t in case['table']]
+    for what, dd, key, expect in (('per-file', d1, 'per-file', table_stripped), ('cube', d2, 'cube use_memmap=False', case['cube'])):
+        info = fitters[key].last_info
+        out = os.path.join(d, 'stage_%s' % what)
+        os.makedirs(out)
+        try:
+            with common.quiet():
+                if case['stage'] == 'write_parameters':
+                    write_parameters(info, os.path.join(out, 'p.txt'), select_format=('A', 0))
+                elif case['stage'] == 'write_parameter_ranges':
+                    write_parameter_ranges(info, os.path.join(out, 'r.txt'), select_format=('A', 0))
+                else:
+                    extract_parameters(input=info, output_prefix=out + '/x_', select_format=('A', 0))
+                convolve_model_dir(dd, filters2, overwrite=True)
+        except Exception as ex:
+            fails.append('%s package: %s, then convolve_model_dir again: raised %s: %s' % (what, case['stage'], type(ex).__name__, ex))
+            continue
+        for filt in specs:
+            tab, via = read_convolved(os.path.join(dd, 'convolved', filt['name'] + '.fits'))
+            f, _ = check_file(case, tab, via, expect, filt['name'], filt, '%s after %s' % (what, case['stage']))
+            fails += f
+    br.add('staged_history')
+    if table_stripped != sorted(table_stripped):
+        br.add('staged_history_unsorted_table')
+    br.add('stage_' + case['stage'])
+    return fails
 
 
 def f32_budget(case, fitter, lmax):
@@ -559,6 +617,7 @@ def impl_side(case, d):
         br.add('sed_flux_err_units_differ')
     if case['aps'] is None:
         br.add('no_apertures')
+    br |= {'cw_unit_' + f.get('cw_unit', 'um') for f in case['filters']}
     if case.get('general'):
         br |= {'general_sed', 'err_not_proportional'}
     if obs['listing'] != table_stripped:
@@ -649,6 +708,7 @@ def impl_side(case, d):
     src_flux = [float(v1[fn]['flux'][row][0]) * fac for fn, fac in zip(fnames, case['src']['fac'])]
     try:
         ref, fitter = fit_variant(case, d1, fnames, False, src_flux)
+        fitters = {'per-file': fitter}
         # largest |log10| of any model flux the fitter can see (all apertures; distances 1-2 kpc scale by <= 4)
         lmax = max(float(np.max(np.abs(np.log10(v1[fn]['flux'])))) for fn in fnames) + np.log10(4.)
         tav, tsc, tchi = f32_budget(case, fitter, lmax)
@@ -660,7 +720,8 @@ def impl_side(case, d):
                 br.add('perfile_fit_memmap_on')
             else:
                 br.add('fit_memmap_on' if um else 'fit_memmap_off')
-            got, _ = fit_variant(case, dd, fnames, um, src_flux)
+            got, fv_ = fit_variant(case, dd, fnames, um, src_flux)
+            fitters[what] = fv_
             um = um and dd != d1          # the per-file reader has no float32 path: exact agreement expected
             if sorted(got) != sorted(ref):
                 fails.append('fit from %s: model names %r, per-file %r' % (what, sorted(got), sorted(ref)))
@@ -680,6 +741,15 @@ def impl_side(case, d):
                 fails.append('fit of model %r from %s: (av, sc, chi2) = (%r, %r, %r); from the per-file package '
                              '(%r, %r, %r); budget (%.3g, %.3g, %.3g)' % (nme, what, float(a1), float(s1), float(c1), float(a0), float(s0), float(c0), ta, ts, tc))
         obs['relaxed'] = relaxed
+        # the wavelengths the fitter evaluates the extinction law at: the filters' central wavelengths
+        for what, fv_ in fitters.items():
+            wl = [float(x) for x in fv_.models.wavelengths.to('micron').value]
+            if len(wl) != len(case['filters']) or any(rel(x, f['cw']) > 1e-12 for x, f in zip(wl, case['filters'])):
+                fails.append('fitter on the %s package: model wavelengths %r micron, filter central wavelengths %r micron (given in %r)'
+                             % (what, wl, [f['cw'] for f in case['filters']], [f.get('cw_unit', 'um') for f in case['filters']]))
+        # ---- staged history in this process: post-processing on a fit, then convolve again (+ one more filter)
+        if case.get('stage') and not fails:
+            fails += staged_history(case, d, d1, d2, filters, fitters, br)
     except Exception as ex:
         import traceback
         fails.append('Fitter raised %s: %s\n%s' % (type(ex).__name__, ex, traceback.format_exc()[-1500:]))
